@@ -1,6 +1,7 @@
 package main
 
 import (
+	"sort"
 	"fmt"
 	"go/token"
 
@@ -73,7 +74,16 @@ func checkC06(w *World, r *Report) {
 		r.Undecided("C06.O-PARITY", "flush", "", fi.Undecided)
 	} else {
 		var outLoop, rowLoop *loopInfo
-		for _, l := range naturalLoops(fi.Fn) {
+		var ufns []*ssa.Function
+		for f := range w.unit(fi.Fn) {
+			ufns = append(ufns, f)
+		}
+		sort.Slice(ufns, func(i, j int) bool { return ufns[i].Pos() < ufns[j].Pos() })
+		var allLoops []*loopInfo
+		for _, f := range ufns {
+			allLoops = append(allLoops, naturalLoops(f)...)
+		}
+		for _, l := range allLoops {
 			if l.Header == fi.Header {
 				continue
 			}
@@ -108,8 +118,32 @@ func checkC06(w *World, r *Report) {
 			var frameRows ssa.Value
 			for b := range rowLoop.Blocks {
 				for _, in := range b.Instrs {
-					if ia, ok := in.(*ssa.IndexAddr); ok && isLoad(Val{V: ia.X}, tFrame, "rows") {
+					ia, ok := in.(*ssa.IndexAddr)
+					if !ok {
+						continue
+					}
+					if isLoad(Val{V: ia.X}, tFrame, "rows") {
 						frameRows = ia.X
+					}
+					// in a private helper: the parameter that flush passes the frame's rows to
+					if par, isP := ia.X.(*ssa.Parameter); isP && par.Parent() != fi.Fn {
+						h := par.Parent()
+						idx := -1
+						for i, q := range h.Params {
+							if q == par {
+								idx = i
+							}
+						}
+						sites := w.callers[h]
+						all := len(sites) > 0 && idx >= 0
+						for _, site := range sites {
+							if site.Parent() != fi.Fn || idx >= len(site.Common().Args) || !isLoad(Val{V: site.Common().Args[idx]}, tFrame, "rows") {
+								all = false
+							}
+						}
+						if all {
+							frameRows = ia.X
+						}
 					}
 				}
 			}
